@@ -124,7 +124,8 @@ def make_pyvis_net(
         for edge in vert.links:
 
             # only draw arrows when we're at the *from* node
-            if vert is edge.v2:
+            # (a self-loop has the same vertex at both ends and is drawn here)
+            if vert is edge.v2 and vert is not edge.v1:
                 continue
 
             other = edge.other(vert)
